@@ -11,9 +11,9 @@ import (
 
 // small builders
 func n(fn string, args ...dt.Arg) *dt.Node { return dt.N(fn, args...) }
-func s(v string) dt.Arg                   { return dt.S(v) }
-func c(v string) dt.Arg                   { return dt.C(v) }
-func prog(ns ...*dt.Node) *dt.Program     { return &dt.Program{Nodes: ns} }
+func s(v string) dt.Arg                    { return dt.S(v) }
+func c(v string) dt.Arg                    { return dt.C(v) }
+func prog(ns ...*dt.Node) *dt.Program      { return &dt.Program{Nodes: ns} }
 
 func itemType() *dt.Node {
 	return n("ResultType", s("application/vnd.item")).With(
